@@ -25,7 +25,7 @@ RULE = ('A case is (module, optimize). Modules: the six shipped ones and random 
         'emitted triples with at least 2 claims or an Instantiate in the proof file.')
 ASSUMPTIONS = ['generated library arguments are well-formed patterns (positive mu, no constraint-violating plugs) and generated instantiations do not turn a pending substitution into a redundant one (plug = the variable, or the variable fresh in the base by the document\'s judgement): the toolkit has no judgement for those and the resulting rejections are recorded under C04/C07']
 FLOORS = {'quick': {'cases': 1500, 'accepted': 1400, 'modules_with_2_claims': 300, 'modules_with_imports': 200, 'modules_with_generalization': 50,
-                    'optimised_with_save_load': 100, 'modules_with_unsorted_instantiation_keys': 30, 'modules_quantifier_with_fresh_declaring_plug': 20, 'modules_pending_subst_on_shadowing_binder': 20, 'modules_with_stacked_pending_substitutions': 20, 'modules_with_coincident_binder_numbers': 30, 'modules_generalization_over_any_variable': 20, 'emitted:ESubst': 10, 'emitted:SSubst': 10, 'shipped_cases': 12, 'tautology_library_cases': 20, 'binary_runs': 100,
+                    'optimised_with_save_load': 100, 'modules_with_unsorted_instantiation_keys': 30, 'modules_quantifier_with_fresh_declaring_plug': 20, 'modules_pending_subst_on_shadowing_binder': 20, 'modules_with_stacked_pending_substitutions': 20, 'modules_same_claim_twice_in_a_row': 10, 'modules_import_filled_after_import': 50, 'modules_with_coincident_binder_numbers': 30, 'modules_generalization_over_any_variable': 20, 'emitted:ESubst': 10, 'emitted:SSubst': 10, 'shipped_cases': 12, 'tautology_library_cases': 20, 'binary_runs': 100,
                     **{f'emitted:{n}': 20 for n in ('EVar', 'SVar', 'Symbol', 'Implies', 'App', 'Exists', 'Mu', 'CleanMetaVar', 'Prop1', 'Prop2', 'Prop3',
                                                     'Quantifier', 'ModusPonens', 'Generalization', 'Instantiate', 'Save', 'Load', 'Publish')},
                     'emitted:MetaVar': 2}}
@@ -95,6 +95,10 @@ def shard(ctx):
                 ctx.count('modules_with_generalization')
             if 'quantifier_with_fresh_declaring_plug' in b.tags:
                 ctx.count('modules_quantifier_with_fresh_declaring_plug')
+            if 'same_claim_twice_in_a_row' in b.tags:
+                ctx.count('modules_same_claim_twice_in_a_row')
+            if 'import_filled_after_import' in b.tags:
+                ctx.count('modules_import_filled_after_import')
             if 'stacked_pending_substitutions' in b.tags:
                 ctx.count('modules_with_stacked_pending_substitutions')
             if 'pending_subst_resolved_on_shadowing_binder' in b.tags:
